@@ -3,7 +3,7 @@
 # usage: tools/baseline.sh [module ...]   (default: all modules of /w/out/gomods.txt)
 mods="$@"; [ -z "$mods" ] && mods=$(cat /w/out/gomods.txt)
 out=$(mktemp /tmp/baseline.XXXXXX.json)
-for m in $mods; do MF=$(cd /repo/$m && . /w/out/goenv.sh && gomodflag); (cd /repo/$m && go test $MF -json -vet=off -count=1 -timeout 25m ./... ); done > $out 2>/dev/null
+for m in $mods; do MF=$(cd ${BASE_REPO:-/repo}/$m && . /w/out/goenv.sh && gomodflag); (cd ${BASE_REPO:-/repo}/$m && go test $MF -json -vet=off -count=1 -timeout 25m ./... ); done > $out 2>/dev/null
 python3 - "$out" $mods <<'P'
 import json,sys
 res={}
